@@ -21,34 +21,52 @@ theorem part1_step (s n c : Int) (hn : n = (((s % 2 ^ 64) * 1439961107955227) % 
 theorem part2_step (s c : Int) (hc : c = s / 2 ^ 52) : s = (s % 2 ^ 64) % 2 ^ 52 + 2 ^ 52 * c := by
   omega
 
-/-- `montgomery_reduce_fn` is five `part1` steps, four `part2` steps and `sub(·, L)`
-(structural equality, by `rfl`). -/
+theorem repZ5_bd (a0 a1 a2 a3 a4 : Int) (h : Lim (2 ^ 52) [a0, a1, a2, a3, a4]) :
+    0 ≤ repZ [a0, a1, a2, a3, a4] ∧ repZ [a0, a1, a2, a3, a4] < 2 ^ 260 := by
+  simp only [Lim, repZ] at *
+  omega
+
+theorem lt_two_ell (R N n : Int) (h : 2 ^ 260 * R = N + n * ell) (hN : N < 2 ^ 260 * ell) (hn : n < 2 ^ 260) :
+    R < 2 * ell := by
+  rw [ell_eqZ] at *
+  omega
+
+theorem top_limb_bd (r0 r1 r2 r3 r4 : Int) (h0 : 0 ≤ r0) (h1 : 0 ≤ r1) (h2 : 0 ≤ r2) (h3 : 0 ≤ r3)
+    (h : repZ [r0, r1, r2, r3, r4] < 2 * ell) : r4 < 2 ^ 52 := by
+  simp only [repZ] at h
+  rw [ell_eqZ] at h
+  omega
+
+/-- five `part1` steps (the first Montgomery factor `n0` is a parameter), four `part2` steps and `sub(·, L)` -/
+def mrTail (z0 z1 z2 z3 z4 z5 z6 z7 z8 n0 : Int) : List Int :=
+  let c0 := (z0 + n0 * 671914833335277) / 2 ^ 52
+  let s1 := (c0 + z1) + n0 * 3916664325105025
+  let n1 := (((s1 % 2 ^ 64) * 1439961107955227) % 2 ^ 64) % 2 ^ 52
+  let c1 := (s1 + n1 * 671914833335277) / 2 ^ 52
+  let s2 := ((c1 + z2) + n0 * 1367801) + n1 * 3916664325105025
+  let n2 := (((s2 % 2 ^ 64) * 1439961107955227) % 2 ^ 64) % 2 ^ 52
+  let c2 := (s2 + n2 * 671914833335277) / 2 ^ 52
+  let s3 := ((c2 + z3) + n1 * 1367801) + n2 * 3916664325105025
+  let n3 := (((s3 % 2 ^ 64) * 1439961107955227) % 2 ^ 64) % 2 ^ 52
+  let c3 := (s3 + n3 * 671914833335277) / 2 ^ 52
+  let s4 := (((c3 + z4) + n0 * 17592186044416) + n2 * 1367801) + n3 * 3916664325105025
+  let n4 := (((s4 % 2 ^ 64) * 1439961107955227) % 2 ^ 64) % 2 ^ 52
+  let c4 := (s4 + n4 * 671914833335277) / 2 ^ 52
+  let s5 := (((c4 + z5) + n1 * 17592186044416) + n3 * 1367801) + n4 * 3916664325105025
+  let c5 := s5 / 2 ^ 52
+  let s6 := ((c5 + z6) + n2 * 17592186044416) + n4 * 1367801
+  let c6 := s6 / 2 ^ 52
+  let s7 := (c6 + z7) + n3 * 17592186044416
+  let c7 := s7 / 2 ^ 52
+  let s8 := (c7 + z8) + n4 * 17592186044416
+  let c8 := s8 / 2 ^ 52
+  sub_fn ((s5 % 2 ^ 64) % 2 ^ 52) ((s6 % 2 ^ 64) % 2 ^ 52) ((s7 % 2 ^ 64) % 2 ^ 52) ((s8 % 2 ^ 64) % 2 ^ 52) c8
+    671914833335277 3916664325105025 1367801 0 17592186044416
+
+/-- `montgomery_reduce_fn` has this shape (structural equality, by `rfl`). -/
 theorem montgomery_reduce_fn_eq (z0 z1 z2 z3 z4 z5 z6 z7 z8 : Int) :
     montgomery_reduce_fn z0 z1 z2 z3 z4 z5 z6 z7 z8 =
-      (let n0 := (((z0 % 2 ^ 64) * 1439961107955227) % 2 ^ 64) % 2 ^ 52
-       let c0 := (z0 + n0 * 671914833335277) / 2 ^ 52
-       let s1 := (c0 + z1) + n0 * 3916664325105025
-       let n1 := (((s1 % 2 ^ 64) * 1439961107955227) % 2 ^ 64) % 2 ^ 52
-       let c1 := (s1 + n1 * 671914833335277) / 2 ^ 52
-       let s2 := ((c1 + z2) + n0 * 1367801) + n1 * 3916664325105025
-       let n2 := (((s2 % 2 ^ 64) * 1439961107955227) % 2 ^ 64) % 2 ^ 52
-       let c2 := (s2 + n2 * 671914833335277) / 2 ^ 52
-       let s3 := ((c2 + z3) + n1 * 1367801) + n2 * 3916664325105025
-       let n3 := (((s3 % 2 ^ 64) * 1439961107955227) % 2 ^ 64) % 2 ^ 52
-       let c3 := (s3 + n3 * 671914833335277) / 2 ^ 52
-       let s4 := (((c3 + z4) + n0 * 17592186044416) + n2 * 1367801) + n3 * 3916664325105025
-       let n4 := (((s4 % 2 ^ 64) * 1439961107955227) % 2 ^ 64) % 2 ^ 52
-       let c4 := (s4 + n4 * 671914833335277) / 2 ^ 52
-       let s5 := (((c4 + z5) + n1 * 17592186044416) + n3 * 1367801) + n4 * 3916664325105025
-       let c5 := s5 / 2 ^ 52
-       let s6 := ((c5 + z6) + n2 * 17592186044416) + n4 * 1367801
-       let c6 := s6 / 2 ^ 52
-       let s7 := (c6 + z7) + n3 * 17592186044416
-       let c7 := s7 / 2 ^ 52
-       let s8 := (c7 + z8) + n4 * 17592186044416
-       let c8 := s8 / 2 ^ 52
-       sub_fn ((s5 % 2 ^ 64) % 2 ^ 52) ((s6 % 2 ^ 64) % 2 ^ 52) ((s7 % 2 ^ 64) % 2 ^ 52) ((s8 % 2 ^ 64) % 2 ^ 52) c8
-         671914833335277 3916664325105025 1367801 0 17592186044416) := rfl
+      mrTail z0 z1 z2 z3 z4 z5 z6 z7 z8 ((((z0 % 2 ^ 64) * 1439961107955227) % 2 ^ 64) % 2 ^ 52) := rfl
 
 /-- the arithmetic core: the intermediate `r = (N + n·l) / 2^260` -/
 theorem montgomery_core (z0 z1 z2 z3 z4 z5 z6 z7 z8 : Int)
@@ -107,18 +125,44 @@ theorem montgomery_core (z0 z1 z2 z3 z4 z5 z6 z7 z8 : Int)
     simp only [repZ]
     linear_combination (-1 : Int) * e0 - 2 ^ 52 * (e1 - hs1) - 2 ^ 104 * (e2 - hs2) - 2 ^ 156 * (e3 - hs3)
       - 2 ^ 208 * (e4 - hs4) - 2 ^ 260 * (e5 - hs5) - 2 ^ 312 * (e6 - hs6) - 2 ^ 364 * (e7 - hs7) - 2 ^ 416 * (e8 - hs8)
-  have hn : repZ [n0, n1, n2, n3, n4] < 2 ^ 260 := by simp only [repZ]; omega
-  have hn' : 0 ≤ repZ [n0, n1, n2, n3, n4] := by simp only [repZ]; omega
-  have h2l : repZ [(s5 % 2 ^ 64) % 2 ^ 52, (s6 % 2 ^ 64) % 2 ^ 52, (s7 % 2 ^ 64) % 2 ^ 52, (s8 % 2 ^ 64) % 2 ^ 52, c8] < 2 * ell := by
-    generalize repZ [(s5 % 2 ^ 64) % 2 ^ 52, (s6 % 2 ^ 64) % 2 ^ 52, (s7 % 2 ^ 64) % 2 ^ 52, (s8 % 2 ^ 64) % 2 ^ 52, c8] = R at *
-    generalize repZ [z0, z1, z2, z3, z4, z5, z6, z7, z8] = N at *
-    generalize repZ [n0, n1, n2, n3, n4] = n at *
-    rw [ell_eqZ] at *
-    omega
+  obtain ⟨hn', hn⟩ := repZ5_bd n0 n1 n2 n3 n4 (by simp only [Lim, and_true]; exact ⟨b0, b1, b2, b3, b4⟩)
+  have h2l := lt_two_ell _ _ _ key hN hn
   refine ⟨?_, h2l, key⟩
+  have ht := top_limb_bd _ _ _ _ c8 (by omega) (by omega) (by omega) (by omega) h2l
   simp only [Lim, and_true]
-  simp only [repZ] at h2l
-  rw [ell_eqZ] at h2l
+  clear key h2l hN e0 e1 e2 e3 e4 e5 e6 e7 e8
   omega
+
+/-- `montgomery_reduce` (with the first factor given): canonical output `o` with `o·2^260 ≡ N (mod l)` -/
+theorem mrTail_spec (z0 z1 z2 z3 z4 z5 z6 z7 z8 n0 : Int)
+    (hn0 : n0 = (((z0 % 2 ^ 64) * 1439961107955227) % 2 ^ 64) % 2 ^ 52)
+    (hz : Lim W1 [z0, z1, z2, z3, z4, z5, z6, z7, z8])
+    (hN : repZ [z0, z1, z2, z3, z4, z5, z6, z7, z8] < 2 ^ 260 * ell) :
+    ∃ o0 o1 o2 o3 o4, mrTail z0 z1 z2 z3 z4 z5 z6 z7 z8 n0 = [o0, o1, o2, o3, o4] ∧
+      Lim (2 ^ 52) [o0, o1, o2, o3, o4] ∧
+      (0 ≤ repZ [o0, o1, o2, o3, o4] ∧ repZ [o0, o1, o2, o3, o4] < ell) ∧
+      (ell : Int) ∣ repZ [o0, o1, o2, o3, o4] * 2 ^ 260 - repZ [z0, z1, z2, z3, z4, z5, z6, z7, z8] := by
+  unfold mrTail
+  extract_lets c0 s1 n1 c1 s2 n2 c2 s3 n3 c3 s4 n4 c4 s5 c5 s6 c6 s7 c7 s8 c8
+  obtain ⟨hl, h2l, key⟩ := montgomery_core z0 z1 z2 z3 z4 z5 z6 z7 z8 n0 c0 s1 n1 c1 s2 n2 c2 s3 n3 c3 s4 n4 c4
+    s5 c5 s6 c6 s7 c7 s8 c8 hz hN hn0 rfl rfl rfl rfl rfl rfl rfl rfl rfl rfl rfl rfl rfl rfl rfl rfl rfl rfl rfl rfl rfl
+  obtain ⟨o0, o1, o2, o3, o4, he, hlo, hv⟩ := sub_fn_L_spec _ _ _ _ _ hl h2l
+  refine ⟨o0, o1, o2, o3, o4, he, hlo, ?_, ?_⟩
+  · rw [hv]
+    exact ⟨Int.emod_nonneg _ (by norm_num [ell]), Int.emod_lt_of_pos _ (by norm_num [ell])⟩
+  · rw [hv]
+    generalize repZ [(s5 % 2 ^ 64) % 2 ^ 52, (s6 % 2 ^ 64) % 2 ^ 52, (s7 % 2 ^ 64) % 2 ^ 52, (s8 % 2 ^ 64) % 2 ^ 52, c8] = R at *
+    have h1 := Int.emod_add_mul_ediv R ell
+    exact ⟨repZ [n0, n1, n2, n3, n4] - 2 ^ 260 * (R / ell), by linear_combination (2 : Int) ^ 260 * h1 + key⟩
+
+theorem montgomery_reduce_fn_spec (z0 z1 z2 z3 z4 z5 z6 z7 z8 : Int)
+    (hz : Lim W1 [z0, z1, z2, z3, z4, z5, z6, z7, z8])
+    (hN : repZ [z0, z1, z2, z3, z4, z5, z6, z7, z8] < 2 ^ 260 * ell) :
+    ∃ o0 o1 o2 o3 o4, montgomery_reduce_fn z0 z1 z2 z3 z4 z5 z6 z7 z8 = [o0, o1, o2, o3, o4] ∧
+      Lim (2 ^ 52) [o0, o1, o2, o3, o4] ∧
+      (0 ≤ repZ [o0, o1, o2, o3, o4] ∧ repZ [o0, o1, o2, o3, o4] < ell) ∧
+      (ell : Int) ∣ repZ [o0, o1, o2, o3, o4] * 2 ^ 260 - repZ [z0, z1, z2, z3, z4, z5, z6, z7, z8] := by
+  rw [montgomery_reduce_fn_eq]
+  exact mrTail_spec _ _ _ _ _ _ _ _ _ _ rfl hz hN
 
 end Dalek.Proofs.Scalar52
